@@ -39,6 +39,14 @@ UNIT_TRUST = {
            "generated from chan.c; proved to refine the primitives of coq/Emu/GuardsPre.v and, composed with the handler theorems, the model's "
            "oh_step (coq/Proofs/SysProofs.v). Still hand-written: find_thread (search loop with early return), DL_APPEND2/DL_DELETE2 (utlist), "
            "value_int64/value_null, pointers as indices, the lookups loom_get_cpu/proc_find_thread/loom_find_thread",
+    "dispatch": "translate/units/dispatch.py + _stagec.py: model_<m>_event, process_ev, simple (nosv, nanos6, nodes), process_ev of mpi / tampi / "
+                "openmp, kernel context_switch and ovni pre_cpu / pre_flush / model_ovni_event / mark_event are rendered into coq/Gen/Dispatch_gen.v on every run "
+                "and proved to compute core_step on DecodeDefs/MarkDefs' decode_all for every model, category, value and payload "
+                "(coq/Proofs/DispatchProofs.v); the table look-up ss_table[c][v] / fn_table[c][v] is the row dumped by unit tables (the one new "
+                "primitive); pre_task is the function of unit taskev, pre_thread / pre_affinity those of unit guards, channel operations are "
+                "chan_step. Hand-written (coq/Emu/DispatchPre.v): is_active / is_running / is_out_of_cpu as views of the thread state, the event "
+                "clock and th->flush_start not represented, pre_type = type_create with the label's gid given, pre_burst = no effect, find_mark_type "
+                "(uthash) = the position of the mark channel of that type",
     "taskev": "translate/units/taskev.py + _stagec.py: pre_task, create_task, update_task and the functions they call in src/emu/nosv/event.c and "
               "src/emu/nanos6/event.c (and the getters of body.c / task.c they use) are rendered into coq/Gen/TaskNosv_gen.v / TaskNanos6_gen.v on "
               "every run and proved equal to EmuCoreDefs.task_event / task_create for both models, without NULL dereference "
